@@ -86,6 +86,10 @@ PROPS = {
                        POOL_SUITE, VAULT_SUITE]},
     "C19": {"mc": [m for m, _ in _REG], "suites": [x for _, x in _REG]},
     "C09": {"mc": [MC_DIST, MC_DIST_SCHED], "suites": [DIST_SCHED, DIST_RANDOM]},
+    "C10": {"mc": [{"module": "MC_Pipeline", "quick": "MC_Pipeline.cfg", "thorough": "MC_Pipeline.cfg", "workers": 4, "emits": "MC_Pipeline"}, MC_DIST],
+            "suites": [{"suite": "pipeline", "trace": "Trace_Pipeline", "cfg": "Trace_Pipeline.cfg", "sched_from": "MC_Pipeline",
+                        "extra": {"mode": "sched"}, "quick": {"runs": 400}, "thorough": {"runs": 0}, "procs": 8}, DIST_RANDOM],
+            "tags": ["C10."]},
     "C14": {"mc": [MC_POOL, MC_VAULT], "suites": [POOL_SUITE, VAULT_SUITE]},
     "C15": {"mc": [MC_POOL], "suites": [POOL_SUITE, MATH_SPREAD]},
 }
